@@ -3,7 +3,7 @@
     [Denote.flatten_play]; the scene definitions of a script against
     [Denote.den_specs]; the schedule reading of the representation. *)
 From Shk Require Import Base.Prelude Model.Storyline Model.Compile Model.Denote
-     Proofs.StorylineProofs Proofs.ScriptProofs.
+     Proofs.StorylineProofs Proofs.StoryScriptProofs.
 
 Local Open Scope Z_scope.
 
